@@ -449,9 +449,8 @@ func verifC27Gen(r *verifutil.Rand, i int, thorough bool) []string {
 		ops = append(ops, fmt.Sprintf("concat %d %d", a, b))
 	}
 	// crash images of one or two files: every byte offset around and inside the parts
-	nf := 1 + r.Intn(2)
-	for k := 0; k < nf; k++ {
-		ops = append(ops, fmt.Sprintf("file %d", r.Intn(3)))
+	for k := 0; k < 2; k++ {
+		ops = append(ops, fmt.Sprintf("file %d", k))
 		ops = append(ops, verifC27CutOps(r, thorough)...)
 	}
 	return ops
@@ -463,7 +462,7 @@ func verifC27Gen(r *verifutil.Rand, i int, thorough bool) []string {
 func verifC27CutOps(r *verifutil.Rand, thorough bool) []string {
 	var ops []string
 	start := 560 + r.Intn(200)
-	span := 500
+	span := 450
 	if thorough {
 		span = 2500
 	}
@@ -486,14 +485,16 @@ func verifC27CutOps(r *verifutil.Rand, thorough bool) []string {
 	return ops
 }
 
+func verifC27Cleanup() {
+	if verifC27.root != "" {
+		os.RemoveAll(verifC27.root)
+	}
+}
+
 func TestVerifC27(t *testing.T) {
-	defer func() {
-		if verifC27.root != "" {
-			os.RemoveAll(verifC27.root)
-		}
-	}()
+	defer verifC27Cleanup()
 	verifutil.Main(t, &verifutil.Harness{
-		ID: "C27", Exec: verifC27Exec, Gen: verifC27Gen, Quick: 60, Thorough: 1200,
+		ID: "C27", Exec: verifC27Exec, Gen: verifC27Gen, Quick: 40, Thorough: 600,
 		Class: func(op, impl string) string {
 			f := strings.Fields(op)
 			switch f[0] {
